@@ -527,10 +527,10 @@ class StarBattle(Base):
                 out.append({"tag": "n%d/r%d" % (n, k), "n": n, "k": 1 if n < 5 or rng.random() < 0.7 else 2, "blocks": room_ids(n, n, rooms)})
 
         # row / column stripes as blocks (the block rule then coincides with a line rule), two stars per line
-        for n in ((5, 6, 8) if tier == "quick" else (5, 6, 7, 8, 9)):
+        for n in ((5, 6, 8, 9, 10) if tier == "quick" else (5, 6, 7, 8, 9, 10, 11)):
             out.append({"tag": "n%d/k2/rows" % n, "n": n, "k": 2, "blocks": [[y] * n for y in range(n)]})
             out.append({"tag": "n%d/k2/cols" % n, "n": n, "k": 2, "blocks": [list(range(n)) for _ in range(n)]})
-        for n in ((8,) if tier == "quick" else (8, 9, 10)):
+        for n in ((8, 9) if tier == "quick" else (8, 9, 10)):
             for k in range(2 if tier == "quick" else 4):
                 for _try in range(80):
                     rooms = random_rooms(rng, n, n, n)
